@@ -261,7 +261,7 @@ def case_on_window(rng, cid, start_k, budget, kind):
     """LCD on; the walker starts start_k cycles after switch-on and is shorter than `budget` cycles, so that it runs
     entirely outside mode 2"""
     t = straight(rng, 200, True, max_cycles=budget - 8)
-    lines = setup(rng) + ['sys.w 0xff40 0x91', 'sys.hw %d' % start_k, 'safe.lcd'] + start_prog(t.code) + \
+    lines = setup(rng) + ['sys.w 0xff40 %s' % rng.choice(['0x91', '0x93', '0x93', '0x97']), 'sys.hw %d' % start_k, 'safe.lcd'] + start_prog(t.code) + \
             ['sys.oam', 'safe.cycoam %d' % (t.cycles + 2), 'sys.oam', 'safe.lcd', 'safe.oamst', 'sys.get']
     META[cid] = dict(kind=kind, writes=sorted(a for a in t.writes if a is not None), oracle=oracle_ok(t), touched=t.touched)
     return (cid, ([] if oracle_ok(t) else ['mayexit']) + lines)
@@ -275,7 +275,7 @@ def case_mode2(rng, cid, dma=False):
     code = list(t.code)
     if dma:
         code = [0x3e, rng.choice([0xc0, 0xc1, 0xd0, 0x80, 0x00, 0xfe, rng.randrange(256)]), 0xe0, 0x46] + code
-    lines = setup(rng) + ['sys.w 0xff40 0x91', 'sys.hw %d' % k, 'safe.lcd']
+    lines = setup(rng) + ['sys.w 0xff40 %s' % rng.choice(['0x91', '0x93', '0x93', '0x97']), 'sys.hw %d' % k, 'safe.lcd']
     if rng.random() < 0.5:
         # looped: the body again and again through many lines
         body = code[:110]
